@@ -243,7 +243,7 @@ def r_reference_eval(rule, root=None):
             if nargs == 1:
                 exp = T.expected_unary(variant, ("R", "P1"))
             else:
-                exp = T.expected_binary(variant, ("R", "P1"), ("R", "P2"))
+                exp = T.expected_binary(variant, ("R", "P1"), ("R", "P2"), scalar=True)  # a, b are f32
             if exp is None or got not in exp:
                 rule.bad("ref|%s|%s" % (enum, variant), "%s::%s evaluates %s" % (enum, variant, T.show(got)), A.where(fn, arm))
             else:
@@ -457,3 +457,9 @@ def run(ctx):
     ctx.guarded(r, r6_parent_counting)
     r = ctx.rule("R3", "every interpreter arm and the reference eval compute the arm's opcode", 4 * 54 + 30)
     ctx.guarded(r, r3_interpreters)
+    # "every evaluator kind" includes an evaluator that has been used before: the many-point interpreter writes
+    # `out[i][0..size]`, so a tape's outputs are computed into rows sized for this call, whatever ran earlier
+    from . import C10 as C10_
+
+    r = ctx.rule("R7", "every evaluator sizes its slot and output rows from the tape and the batch on every call (no grow-only shortcut)", 19)
+    ctx.guarded(r, C10_.r1_buffers)
